@@ -232,6 +232,10 @@ impl<R: Req> VhostUserMsgHeader<R> {
     pub fn is_valid(&self) -> (r: bool) ensures r == hdr_valid_spec(*self) { unimplemented!() }
 }
 
+#[derive(Clone, Copy)]
+pub struct VringConfigData { pub queue_max_size: u16, pub queue_size: u16, pub flags: u32, pub desc_table_addr: u64,
+    pub used_ring_addr: u64, pub avail_ring_addr: u64, pub log_addr: Option<u64> }
+
 // ---- message bodies (field names as in message.rs; layouts proved-by: c01_layout_table)
 #[derive(Clone, Copy)] pub struct VhostUserEmpty;
 #[derive(Clone, Copy)] pub struct VhostUserU64 { pub value: u64 }
